@@ -99,6 +99,8 @@ def reset_rule(ctx, P, R, side):
                 ctx.check(True, R, '%s:%s' % (short, fld), loc=f.loc(node), detail={'reset_in': Rset[fld][0].bname})
             elif fld in ALLOW:
                 ctx.check(True, R, '%s:%s' % (short, fld), loc=f.loc(node), detail={'survives-by-design': ALLOW[fld]})
+            elif _guarded_scratch(P, K, fld, Rset):
+                ctx.check(True, R, '%s:%s' % (short, fld), loc=f.loc(node), detail={'written-before-every-read': _guarded_scratch(P, K, fld, Rset)})
             else:
                 ctx.check(False, R, '%s:%s' % (short, fld), 'per-request field %s (written in %s) is not reset at the request boundary: the next request on a kept-alive connection starts from stale state' % (fld, f.short), f.loc(node))
     return total
@@ -149,3 +151,43 @@ def run(ctx):
                'an asynchronous read completes with at most the number of bytes of the buffer it was given')
     ctx.floor(R2, 12)
     ctx.stats['linbound_paths'] = E.paths
+
+
+def _guarded_scratch(P, K, fld, Rset):
+    """A field needs no reset if every read of it is preceded, in the same function, by a write of it, or happens only
+    under the true edge of a flag G that IS reset at the boundary and is only set after the field was written."""
+    owners = [K, CONN]
+    fns = [f for f in P.fns.values() if f.brecord in owners and f.kind not in ('ctor', 'dtor') and f.short not in BOUNDARY]
+    guards = set()
+    for f in fns:
+        reads, writes = [], []
+        for i in f.all_nodes():
+            n = f.N(i)
+            if n['k'] == 'MemberExpr' and model.strip_targs(n.get('ref', '')).rsplit('::', 1)[-1] == fld and any(model.strip_targs(n['ref']).startswith('f:' + o + '::') for o in owners):
+                (writes if lockset.classify_access(f, i) == 'w' else reads).append(i)
+        for r in reads:
+            if f.point_of(r) is None:
+                continue
+            if any(q.before(f, w, r) for w in writes if f.point_of(w)):
+                continue
+            ok = False
+            for G in Rset:
+                if G == fld:
+                    continue
+                g = f.gate_edges(lambda atom, pol, f=f, G=G: model.strip_targs(f.ref_of(atom) or '').rsplit('::', 1)[-1] == G and pol is True)
+                if g and f.only_through(r, g):
+                    # G is raised only after fld was assigned
+                    sets_ok = True
+                    for h in fns:
+                        for w in q.field_writes(h, '::' + G):
+                            if h.const_value(h.N(w)['ch'][1]) == 1:
+                                fw = [x for x in q.field_writes(h, '::' + fld) if h.point_of(x)]
+                                if not fw or not any(q.before(h, x, w) for x in fw):
+                                    sets_ok = False
+                    if sets_ok:
+                        ok = True
+                        guards.add(G)
+                        break
+            if not ok:
+                return None
+    return 'every read is dominated by a write or guarded by %s' % (sorted(guards) or 'a local write')
